@@ -48,7 +48,7 @@ def project(src, dst, events):
 
 
 def crash_key(row, plan):
-    loc = re.sub(r":\d+$", "", re.sub(r"^/repo/", "", row.get("loc", "")))
+    loc = re.sub(r":\d+$", "", re.sub(r"^(/.*)?/repo/", "", row.get("loc", "")))
     msg = re.sub(r"0x[0-9a-fA-F]+|\d+", "#", row.get("msg", ""))[:80]
     return "crash:%s:%s:%s" % (plan, loc, msg)
 
